@@ -327,11 +327,20 @@ class Translator:
             if isinstance(tb, tuple) and tb[0] in ("option", "result"):
                 return (f"(map_opt {fn} (zip {L1} {L2}))", RES(LIST(tb[1])))
             return (f"(map {fn} (zip {L1} {L2}))", LIST(tb))
+        if isinstance(g.target, ast.Name) and isinstance(g.iter, ast.Call) and ast.unparse(g.iter.func) == "range" and not g.iter.keywords \
+                and (len(g.iter.args) == 1 or (len(g.iter.args) == 2 and ast.unparse(g.iter.args[0]) == "0")):
+            nn, tn = self.tr(g.iter.args[-1], env); self.need(tn, NAT)
+            v = g.target.id if g.target.id != "_" else "i_"
+            env2 = dict(env); env2[g.target.id] = (v, NAT)
+            body, tb = self.tr(n.elt, env2)
+            return (f"(map (fun {v} => {body}) (seq 0 {nn}))", LIST(tb))
         if isinstance(g.target, ast.Name):
             L, tL = self.tr(g.iter, env)
             if not (isinstance(tL, tuple) and tL[0] == "list"): raise Unsupported("comprehension over non-list")
             env2 = dict(env); env2[g.target.id] = (g.target.id, tL[1])
             body, tb = self.tr(n.elt, env2)
+            if isinstance(tb, tuple) and tb[0] == "result":
+                return (f"(map_opt (fun {g.target.id} => {body}) {L})", RES(LIST(tb[1])))
             return (f"(map (fun {g.target.id} => {body}) {L})", LIST(tb))
         raise Unsupported(f"comprehension {ast.unparse(n)[:60]}")
 
@@ -343,6 +352,9 @@ class Translator:
             if ty == LIST(BOOL) and t.startswith("(map "):
                 return ("(forallb " + t[len("(map "):], BOOL)
             raise Unsupported("all(...)")
+        if f == "range" and not n.keywords and (len(n.args) == 1 or (len(n.args) == 2 and ast.unparse(n.args[0]) == "0")):
+            nn, tn = self.tr(n.args[-1], env); self.need(tn, NAT)
+            return (f"(seq 0 {nn})", LIST(NAT))
         if f == "len" and len(n.args) == 1:
             v, tv = self.tr(n.args[0], env)
             if not (isinstance(tv, tuple) and tv[0] == "list"): raise Unsupported("len of non-list")
@@ -417,8 +429,12 @@ class Translator:
             callee = self.by_call[f]
             argnames, defaults = self.signature_defaults(callee)
             given = {}
-            if len(n.args) > len(argnames): raise Unsupported("too many args")
-            for name, a in zip(argnames, n.args): given[name] = a
+            args_ = list(n.args)
+            extra_skipped = [p_ for p_ in callee.skip_params if p_ not in ("self", "cls")]
+            if len(args_) > len(argnames) and len(args_) - len(argnames) <= len(extra_skipped):
+                args_ = args_[len(args_) - len(argnames):]
+            if len(args_) > len(argnames): raise Unsupported("too many args")
+            for name, a in zip(argnames, args_): given[name] = a
             for k in n.keywords:
                 if k.arg not in argnames or k.arg in given: raise Unsupported("kwarg")
                 given[k.arg] = k.value
@@ -580,6 +596,17 @@ class Translator:
                        and isinstance(test.comparators[0], ast.Constant) and test.comparators[0].value is None
                        and dotted(test.left) in env and isinstance(env[dotted(test.left)][1], tuple)
                        and env[dotted(test.left)][1][0] == "option")
+        if (isinstance(test, ast.Compare) and isinstance(test.ops[0], ast.Is) and isinstance(test.comparators[0], ast.Constant)
+                and test.comparators[0].value is None and isinstance(test.left, ast.Name) and test.left.id in env and not st.orelse
+                and len(st.body) == 1 and isinstance(st.body[0], ast.Assign) and len(st.body[0].targets) == 1
+                and isinstance(st.body[0].targets[0], ast.Name) and st.body[0].targets[0].id == test.left.id
+                and isinstance(env[test.left.id][1], tuple) and env[test.left.id][1][0] == "option"):
+            x = test.left.id; xcur, xty = env[x]
+            e, te = self.tr(st.body[0].value, env); self.need(te, xty[1])
+            nv = self.gensym(x)
+            env2 = dict(env); env2[x] = (nv, xty[1])
+            b, tb = self.tr_body(rest, env2)
+            return (f"let {nv} := match {xcur} with Some v_ => v_ | None => {e} end in\n  {b}", tb)
         terminal = lambda body: body and isinstance(body[-1], (ast.Return, ast.Raise))
         if terminal(st.body) and not st.orelse:
             c, tc = self.tr(test, env); self.need(tc, BOOL)
